@@ -313,7 +313,7 @@ func c03Chunks(stream []byte, sizes []int) []Sexp {
 
 func init() {
 	props["C03"] = func(c *Ctx) {
-		c.Res.Rule = "case = record list (bodies with spaces, newlines, NUL, non-UTF-8; stdout/stderr/stdin frames; timestamps 1700-2200 with 0-9(+) fraction digits and zone offsets) x fault (none / truncation at a byte / daemon frame / bad timestamp / no space) x fragmentation (whole, 1-byte, random incl. empty reads, data+EOF); non-trivial = at least 2 records and (fragmented or faulted); distinct by request line"
+		c.Res.Rule = "case = record list (bodies with spaces, newlines, NUL, non-UTF-8; one record in forty 4 KiB - 70 KB long, around the 16 KiB and 64 KiB marks; stdout/stderr/stdin frames; timestamps 1700-2200 with 0-9(+) fraction digits and zone offsets) x fault (none / truncation at a byte / daemon frame / bad timestamp / no space) x fragmentation (whole, 1-byte, random incl. empty reads, data+EOF); non-trivial = at least 2 records and (fragmented or faulted); distinct by request line"
 		frames := &Spec[c03Case]{
 			What: "Frames.decodeAll == dockerlog.ParseLog (whole stream) and Frames.decodeChunks (same fragmentation)",
 			Gen:  c03Gen,
